@@ -1,12 +1,20 @@
 (* Extraction of the executable model to OCaml.  ExtrOcamlBasic only: no
    Extract Constant / Extract Inductive directive of our own. *)
-From GS.Spec Require Import ShareSpec.
+From GS.Spec Require Import ShareSpec CompactSpec LayoutSpec.
 From GS.Model Require Import Base Varint Namespace ShareFmt Blob Sparse Compact Counter Arith Proto Builder Square.
+(* C05 begin *)
+From GS.Model Require Import Sha256 Nmt.
+(* C05 end *)
 Require Import Extraction.
 Require Import ExtrOcamlBasic.
 Set Extraction KeepSingleton.
 
 Extraction "model.ml"
+  (* C05 begin: sha-256, namespaced merkle tree, commitments *)
+  sha256 split_point mroot inner_node level_nodes hash_leaf hash_node hash_node_o nmt_empty_root
+  nmt_compute_root nmt_push_ok nmt_leaf_hashes nmt_root nmt_subtree_root row_leaves merkle_root
+  subtree_roots create_commitment subtree_roots_sha commitment_sha
+  (* C05 end *)
   (* base *)
   b2n n2b N.add N.mul N.div N.modulo N.compare N.of_nat N.to_nat Z.add Z.mul Z.opp Z.of_N Z.to_N Z.abs Z.compare
   bytes_eqb
@@ -42,4 +50,5 @@ Extraction "model.ml"
   tx_share_range blob_share_range new_builder_txs
   get_share_range_for_namespace parse_shares sequence_raw_data valid_sequence_len number_of_shares_needed
   blob_spec sparse_spec padding_spec compact_spec
+  compact_spec_ix layout layout_construct layout_build estimate
   deconstruct wrapped_pfbs mock_pfb_decoder square_is_empty empty_square.
